@@ -311,8 +311,7 @@ class _Split(SubCheck):
                 continue
             if cols == 4:
                 if mode == "largest" and wd != "none":
-                    ps = e.choice("ps%d" % j, ["1000", "2000"])
-                    ch = e.choice("chrom%d" % j, ["chr1", "chr2"])
+                    ps, ch = e.choice("block%d" % j, [("1000", "chr1"), ("2000", "chr1"), ("1000", "chr2")])
                 else:
                     ps, ch = ("none", "chr1") if wd == "none" else ("1000", "chr1")
                 lines.append("%s\t%s\t%s\t%s\n" % (nm, wd, ps, ch))
@@ -534,7 +533,8 @@ class Dist(_Split):
             plan = {"h12": [("fastq", 2, False), ("bam", 4, True)], "o2": [("fastq", 4, True)], "o3": [("bam", 2, True)]}
         else:
             allc = [(f, c, h) for f in ("fastq", "bam") for c in (2, 4) for h in (False, True)]
-            plan = {"h12": allc, "o2": [("fastq", 4, True), ("bam", 2, False), ("fastq", 2, True), ("bam", 4, False)], "o3": allc}
+            half = [("fastq", 4, True), ("bam", 2, False), ("fastq", 2, True), ("bam", 4, False)]
+            plan = {"h12": allc, "o2": half, "o3": [("bam", 4, True), ("fastq", 2, False), ("bam", 2, True), ("fastq", 4, False)]}
         for api, combos in plan.items():
             for fmt, cols, header in combos:
                 for n in range(1, nmax + 1):
@@ -548,7 +548,7 @@ class Dist(_Split):
         return (
             "reads <= %d with names from a pool of 3 (every duplicate pattern, first-occurrence order), list = optional entry (none/H1..Hp) for each pool name "
             "and for one name absent from the reads (quick: absent or H1 only; <= 4 lines, fixed order%s), 2- and 4-column lists with/without header, FASTQ and unaligned BAM "
-            "(quick: 4 of the 24 format x columns x header x API combinations, thorough: 20), APIs --output-h1/-h2 (every non-empty subset) and -o x2 / -o x3, untagged output requested or not, --add-untagged and --discard-unknown-reads symbolic; "
+            "(quick: 4 of the 24 format x columns x header x API combinations, thorough: 16), APIs --output-h1/-h2 (every non-empty subset) and -o x2 / -o x3, untagged output requested or not, --add-untagged and --discard-unknown-reads symbolic; "
             "%d shapes" % (3 if tier == "quick" else 4, "" if tier == "quick" else " and reversed for 3 reads", len(self.shapes(tier)))
         )
 
@@ -597,15 +597,16 @@ class Largest(_Split):
 
     def shapes(self, tier):
         out = []
-        nmax = 2 if tier == "quick" else 3
-        for fmt, header in [("fastq", True), ("bam", False)]:
-            for api in ("h12",) if tier == "quick" else ("h12", "o3"):
-                for n in range(1, nmax + 1):
-                    out += _spread(dict(fmt=fmt, cols=4, header=header, api=api, n=n, pool=3, listonly=False), always=True)
+        if tier == "quick":
+            plan = [("fastq", True, "h12", 2), ("bam", False, "h12", 1)]
+        else:
+            plan = [(f, h, api, n) for f, h in (("fastq", True), ("bam", False)) for api in ("h12", "o3") for n in (1, 2, 3)]
+        for fmt, header, api, n in plan:
+            out += _spread(dict(fmt=fmt, cols=4, header=header, api=api, n=n, pool=3, listonly=False), always=True)
         return _big_first(out)
 
     def bounds(self, tier):
-        return "--only-largest-block with a 4-column list: reads <= %d from a pool of 3 names, every tagged entry in one of 2 phase sets x 2 chromosomes (solver-chosen); options as in dist; %d shapes" % (2 if tier == "quick" else 3, len(self.shapes(tier)))
+        return "--only-largest-block with a 4-column list: reads <= %d from a pool of 3 names, every tagged entry in one of the blocks chr1/1000, chr1/2000, chr2/1000 (solver-chosen); options as in dist; histogram not requested; %d shapes" % (2 if tier == "quick" else 3, len(self.shapes(tier)))
 
 
 SUBCHECKS = {c.name: c for c in [Dist(), Hist(), Largest()]}
